@@ -769,11 +769,14 @@ fn ref_solve(n: usize, cm: bool, a: &[f64], b: &[f64]) -> Option<Vec<f64>> {
     Some(if cm { x.iter().flat_map(|z| [z.0, z.1]).collect() } else { x.iter().map(|z| z.0).collect() })
 }
 
-/// Reference Newton step N(x0) = x0 - J(x0)^-1 F(x0) with the analytic Jacobian, and
-/// the size of the step; None when the step is ill-conditioned or undefined.
-fn ref_step(case: &Case, x0: &[f64]) -> Option<(Vec<f64>, f64)> {
+/// Reference Newton step N(x0) = x0 - J(x0)^-1 F(x0) with the analytic Jacobian; the size of the
+/// step; and an estimate of the relative error the documented difference scheme makes in that step
+/// (truncation error of the difference quotients measured on the analytic Jacobian itself, times
+/// the norm of the inverse). None when the step is ill-conditioned or undefined.
+fn ref_step(case: &Case, x0: &[f64]) -> Option<(Vec<f64>, f64, f64)> {
     let cm = case.entry.cmplx();
     let n = case.n;
+    let w = if cm { 2 } else { 1 };
     let f = f_eval(case, x0);
     let j = j_eval(case, x0)?;
     if f.iter().chain(j.iter()).any(|v| !v.is_finite()) {
@@ -790,7 +793,6 @@ fn ref_step(case: &Case, x0: &[f64]) -> Option<(Vec<f64>, f64)> {
         // diagonally dominant: well conditioned by construction
     } else {
         // diagonal Jacobians of the hostile systems: guard every pivot
-        let w = if cm { 2 } else { 1 };
         for i in 0..n {
             let d = j[(i * n + i) * w].abs();
             if !(d >= 1e-2 * fnorm && d > 1e-6) {
@@ -804,7 +806,50 @@ fn ref_step(case: &Case, x0: &[f64]) -> Option<(Vec<f64>, f64)> {
     if !step.is_finite() {
         return None;
     }
-    Some((x1, step))
+    // truncation error of the scheme's derivative, estimated from the analytic Jacobian nearby
+    let d = case.delta;
+    let mag = |v: &[f64]| v.iter().fold(0.0f64, |m, x| m.max(x.abs()));
+    let rel = if !case.entry.system() {
+        // central difference: error about delta^2 * (third derivative) / 6, i.e. the second difference of the derivative / 6
+        let mut xp = x0.to_vec();
+        let mut xm = x0.to_vec();
+        xp[0] += d;
+        xm[0] -= d;
+        let (jp, jm) = (j_eval(case, &xp)?, j_eval(case, &xm)?);
+        let second: Vec<f64> = (0..w).map(|k| jp[k] - 2.0 * j[k] + jm[k]).collect();
+        mag(&second) / 6.0 / mag(&j[..w]).max(1e-300)
+    } else if case.entry.has_jac() {
+        0.0
+    } else {
+        // forward difference: the error of column c is about (J(x + d e_c) - J(x))[:, c] / 2
+        let mut e_max: f64 = 0.0;
+        for c in 0..n {
+            let mut xp = x0.to_vec();
+            xp[c * w] += d;
+            let jp = j_eval(case, &xp)?;
+            for r in 0..n {
+                for k in 0..w {
+                    e_max = e_max.max(0.5 * (jp[(r * n + c) * w + k] - j[(r * n + c) * w + k]).abs());
+                }
+            }
+        }
+        // inf-norm of the inverse by solving for the unit vectors
+        let mut inv_norm_rows = vec![0.0f64; n];
+        for c in 0..n {
+            let mut e = vec![0.0; n * w];
+            e[c * w] = 1.0;
+            let col = ref_solve(n, cm, &j, &e)?;
+            for r in 0..n {
+                inv_norm_rows[r] += if cm { col[2 * r].hypot(col[2 * r + 1]) } else { col[r].abs() };
+            }
+        }
+        let inv_norm = inv_norm_rows.iter().fold(0.0f64, |m, v| m.max(*v));
+        inv_norm * e_max * n as f64 * if cm { 2.0 } else { 1.0 }
+    };
+    if !(rel.is_finite() && rel <= 0.02) {
+        return None; // the scheme's own derivative error is too large here for a one-step comparison
+    }
+    Some((x1, step, rel))
 }
 
 fn smooth(func: &Func) -> bool {
@@ -1398,13 +1443,14 @@ impl Prop for C17 {
 
         // ---- oracle 3b: one iteration from the guess is one Newton step (reference model)
         if !faulted && smooth(&case.func) && k >= 1 {
-            if let Some((want, step)) = ref_step(case, &case.guess) {
+            if let Some((want, step, scheme_rel)) = ref_step(case, &case.guess) {
                 let one = solve_once(case, &case.guess, 1);
                 stats.steps += (one.f_calls + one.j_calls) as u64;
                 if let Ok((_, got)) = &one.result {
                     let err = got.iter().zip(want.iter()).map(|(a, b)| (a - b).abs()).fold(0.0f64, f64::max);
-                    // derivative error of the scheme: O(delta) forward differences (systems), O(delta^2) central (scalars)
-                    let tolr = if e.system() && !e.has_jac() { (50.0 * case.delta).max(1e-4) } else if !e.system() { (1e3 * case.delta * case.delta).max(1e-4) } else { 1e-4 };
+                    // 1e-4 covers rounding noise under the conditioning guard; the truncation error of the scheme's own
+                    // difference quotients (forward: O(delta), central: O(delta^2)) is measured on the analytic Jacobian, times 4
+                    let tolr = 1e-4 + 4.0 * scheme_rel;
                     let bound = tolr * step + 1e-9 * scale;
                     if !(err <= bound) {
                         return violation(
